@@ -14,10 +14,25 @@ def run(tier, chk):
     wd = vlib.workdir("C01")
     scns = common.gen_scenarios(chk, wd, "C01_Gen", cfg_text=f'SPECIFICATION Spec\nCONSTANT Tier = "{tier}"\nINVARIANT Emit\nCHECK_DEADLOCK FALSE\n', workers=8)
     common.run_sim(chk, wd, scns, "C01_Trace", shards=14, sig_of=sig)
+    # the same message catalogue over the REAL transport: h3 client <-> h3 server through the h3-quinn adapter on both sides, Quinn over
+    # loopback UDP, flow-control windows from tiny (every write is partial, the sender is back-pressured) to default
+    import json as _j
+    seen, e2e = set(), []
+    for s in scns:
+        key = _j.dumps([s["req"], s["resp"]], sort_keys=True)
+        if key in seen:
+            continue
+        seen.add(key)
+        for w in ([64, 2048, 0] if tier == "quick" else [64, 100, 1000, 2048, 65536, 0]):
+            e2e.append({"fam": "E2E", "req": s["req"], "resp": s["resp"], "win": {"stream": w, "conn": 0 if w == 0 else 4 * w}, "id": f"e2e-{len(e2e)+1}"})
+    common.run_sim(chk, wd, e2e, "C01_Trace", label="e2e", shards=8, runner="quinn",
+                   sig_of=lambda s, t, w: "c01:panic" if any(e.get("ev") == "panic" for e in t) else f"c01:e2e:win{s['win']['stream']}")
     chk.exhaustive = True
-    chk.distinct_nontrivial = len(scns)
+    chk.distinct_nontrivial = len(scns) + len(e2e)
+    chk.notes["end_to_end_over_quinn"] = len(e2e)
     chk.rule = ("8 requests (GET/POST/PUT/OPTIONS/CONNECT/extended CONNECT; absolute- and authority-form targets; repeated and mixed-case names; 300-byte value; bodies of 0..3 pieces "
-                "incl. empty pieces and 16 KiB; trailers) x 4 responses x sender write sizes x delivery chunk sizes (every byte boundary for chunk 1) x whole/split streams x grease")
+                "incl. empty pieces and 16 KiB; trailers; opaque non-UTF-8 field values) x 4 responses x sender write sizes x delivery chunk sizes (every byte boundary for chunk 1) x whole/split/late-split streams x grease; "
+                "plus every request x response pair over real Quinn loopback (h3-quinn on both sides) with stream windows 64 / 2048 / default")
     chk.assumptions = ["bodies are position-coded; pieces longer than 48 bytes are compared by the harness against the pattern (pat_ok), shorter ones in TLA+",
                        "task interleavings are those the chunk/write policies induce, not an exhaustive enumeration"]
 
